@@ -12,6 +12,30 @@ CHECKS = {
  "C03": (MC, "same as C02 over UTF-8 chunk alphabets (2/3/4-byte, truncated, surrogate, overlong) for is_6531_local",
          "Decision of is_6531_local compared on every enumerated input with: well-formed UTF-8 (Unicode table 3-7) and the RFC 5321 grammar over code points.",
          "Trusted: TLC, spec/Utf8.tla + LocalPart.tla layer P, replay driver."),
+ "C01": (MC, "TLC enumeration of addresses + replay through is_*_email, composition of public validators, and eav_init/eav_setup/eav_is_email",
+         "Every enumerated address (bounded-exhaustive over structure characters, plus pool and length families) has its decision, code and flag pinned by layer P per mode; the real per-mode functions, the composition of the public part validators and the high-level object must all agree.",
+         "Trusted: TLC, spec/Email.tla layer P, replay driver; mode 6531 host names are decided relative to the recorded answers of libidn2 (environment)."),
+ "C04": (MC, "TLC enumeration of host names (exhaustive short strings + 63/253 length families + per-byte sweeps) replayed into is_ascii_domain and is_utf8_domain",
+         "IsHostname (layer P, Split-based, no recursion) pins accept/reject for every enumerated domain; is_ascii_domain must agree exactly, is_utf8_domain must never accept an all-ASCII domain that violates the rules.",
+         "Trusted: TLC, spec/Hostname.tla layer P, replay driver. 6531: relative to libidn2's conversion."),
+ "C05": (MC, "TLC enumeration of bracketed domains (content alphabet + octet/IPv6-shape/tag/suffix families) with necessary/sufficient sandwich, replayed through the four is_*_email",
+         "LiteralS => accept => LiteralN and the family flag are checked on every enumerated literal in all modes with tld_check off/on; the band between N and S is executed but not judged.",
+         "Trusted: TLC, spec/IpLiteral.tla layer P (RFC 4291 / RFC 5321 4.1.3 transcribed), replay driver."),
+ "C07": (MC, "TLC enumeration over the CSV-derived table (all rows x case x depth, near misses) replayed as addresses in four modes",
+         "TldData is generated from data/punycode.csv of the tree under test; TldClassP pins the class of every generated domain; U-label spellings are validated through the recorded converter answer.",
+         "Trusted: TLC, CSV extraction (tools/gen_tlddata.py: CSV syntax only), spec/Tld.tla, replay driver, libidn2 for U-labels."),
+ "C09": (MC, "TLC enumeration of reserved names behind labels of every length 1..63, case patterns and one-edit neighbours, replayed as addresses in four modes",
+         "IsReserved (whole-label, last one/two labels) pins class 'special' exactly; SpecialRc (the code's algorithm) is model-checked against it and the real is_special_domain is exercised through is_*_email.",
+         "Trusted: TLC, spec/Special.tla, replay driver."),
+ "C12": (MC, "relational check on observed four-mode results for every TLC-enumerated local part / address (the spec marks where each relation applies)",
+         "Cross-mode relations need no oracle: they are evaluated on the observed outcomes themselves; TLC additionally checks them on the machines (layer M).",
+         "Trusted: TLC, replay driver's relation code."),
+ "C15": (MC, "truth predicates of layer P as TLC invariants on M, plus TLC validation of every observed outcome the model did not predict; eav_is_email ret/errcode/message consistency on every vector",
+         "A code is accepted only if its truth predicate holds of the input (generous necessary conditions, so a different but true reason is not an alarm).",
+         "Trusted: TLC, truth predicates LTruth/HTruth/ITruth/EmailOk, replay driver."),
+ "C16": (MC, "result-record pins (flags, rc) in every address vector, four modes x tld_check; unpredicted records validated by TLC",
+         "At most one flag, exactly the form flag on acceptance, none when syntactically invalid, rc 0 / class / negative.",
+         "Trusted: TLC, spec/Email.tla, replay driver. EAV_EXTRA strings: see evidence."),
 }
 NOT_YET = {}
 
